@@ -72,6 +72,14 @@ def execute(P, cases, profile, exes):
         impl = P.custom_impl(cases, profile)
     else:
         impl = core.run_sharded(exes["impl_" + profile], cases, tag=P.id + ".impl", shards=P.shards)
+    if hasattr(P, "extra_search") and any(c.startswith("M ") for c in cases):
+        # replay of a Miri run found by the extra search
+        from .p_c07 import miri
+        impl = list(impl)
+        for i, c in enumerate(cases):
+            if c.startswith("M "):
+                _, prog, lo, hi = c.split(" ")
+                impl[i] = miri(prog, int(lo), int(hi))
     if "model" in exes:
         model = core.run_sharded(exes["model"], cases, extra_args=P.model_args(profile), tag=P.id + ".model", shards=P.shards)
     else:
@@ -223,6 +231,24 @@ def run_property(P, tier, seed, replay=None):
                                         "failing_cases_total": len(violations)})
         out_lines.append("VIOLATION property=%s replay=%s" % (P.id, path))
         rc = 1
+    extra = None
+    if not violations and (corr_diffs or broken) and hasattr(P, "extra_search"):
+        # a second, slower search that only runs when something no longer checks
+        try:
+            extra = P.extra_search(tier)
+        except Exception as e:          # the search is best effort
+            extra = None
+    if extra:
+        c, why, a = extra
+        path = core.write_replay(P.id, {"kind": "input", "case": c, "profile": P.profiles[0], "what_fails": why,
+                                        "impl_output": a, "model_output": "(search outside the model)", "seed": seed,
+                                        "found_by": "extra search after a broken obligation",
+                                        "broken": [("%s: %s" % (k, w)) for k, w, _ in broken] +
+                                                  (["correspondence: %d differing cases" % len(corr_diffs)] if corr_diffs else [])})
+        out_lines.append("VIOLATION property=%s replay=%s" % (P.id, path))
+        rc = 1
+    elif violations:
+        pass
     elif corr_diffs or broken:
         # a proof obligation or the correspondence no longer checks, and the search (the spec oracle on
         # every generated case, corpus first) found no input on which the property itself fails
